@@ -86,7 +86,8 @@ fn top_up(net: &Net, t: usize) {
 }
 
 /// Deterministic in (seed, t, async_t): the scenario up to `upto` points after point 0.
-fn run_scenario(seed: u64, t: usize, async_t: bool, n_ops: usize, upto: usize) -> (Net, Vec<Point>, Option<u64>) {
+fn run_scenario(seed: u64, t: usize, async_t: bool, n_ops: usize, upto: usize) -> (Net, Vec<Point>, Option<u64>, Vec<(usize, bool)>) {
+	let mut decided: Vec<(usize, bool)> = vec![]; // the application's claim (true) / fail-back (false) decisions, to be retried after a restart
 	let mut rng = Rng::new(seed);
 	let mut net = Net::new(3, vec![None, None, None]);
 	let c0 = net.open(0, 1, 1_000_000, 400_000_000);
@@ -126,7 +127,7 @@ fn run_scenario(seed: u64, t: usize, async_t: bool, n_ops: usize, upto: usize) -
 				let p = *rng.pick(&cands);
 				let to = net.pays[p].to; let h = net.pays[p].hash;
 				net.claimable[to].retain(|c| c.0 != h);
-				if rng.chance(4, 5) { net.claim(p); format!("claim#{}", p) } else { net.fail_back(p); format!("failback#{}", p) }
+				if rng.chance(4, 5) { decided.push((p, true)); net.claim(p); format!("claim#{}", p) } else { decided.push((p, false)); net.fail_back(p); format!("failback#{}", p) }
 			},
 			5 => { let (c, id) = *rng.pick(&pend); net.complete(t, c, id); format!("complete c{} {}", c, id) },
 			_ => {
@@ -138,7 +139,7 @@ fn run_scenario(seed: u64, t: usize, async_t: bool, n_ops: usize, upto: usize) -
 		};
 		pts.push(take_point(&net, t, op));
 	}
-	(net, pts, start_bal1)
+	(net, pts, start_bal1, decided)
 }
 
 fn csv(v: &[u64]) -> String { if v.is_empty() { "-".into() } else { v.iter().map(|x| x.to_string()).collect::<Vec<_>>().join(",") } }
@@ -194,8 +195,8 @@ fn main() {
 	let mut rec = Rec::new(&args.out, &args.model);
 	let mut rng = Rng::new(args.seed);
 	let trace_on = std::env::var("VERIF_TRACE").is_ok();
-	let n_scen = if args.thorough { 40 } else { 10 } * args.scale as usize;
-	let worlds_per_scen = if args.thorough { usize::MAX } else { 70 };
+	let n_scen = if args.thorough { 20 } else { 10 } * args.scale as usize;
+	let worlds_per_scen = if args.thorough { 200 } else { 70 }; // a leaked Net per world: memory bounds the thorough tier
 	let mut n_worlds = 0u64; let mut n_adm = 0u64; let mut n_closed = 0u64; let mut n_replay = 0u64; let mut n_second = 0u64; let mut n_settled = 0u64;
 	let mut nondet = 0u64; let mut late_panics = 0u64;
 	for sc in 0..n_scen {
@@ -204,7 +205,7 @@ fn main() {
 		let async_t = sc % 5 != 4;
 		let n_ops = if args.thorough { 50 + rng.below(90) as usize } else { 40 + rng.below(50) as usize };
 		// ---- reference run: all points, run-model tracking ops ------------------------------------
-		let (net, pts, start_bal1) = match guarded(AssertUnwindSafe(|| run_scenario(seed, t, async_t, n_ops, usize::MAX))) {
+		let (net, pts, start_bal1, _) = match guarded(AssertUnwindSafe(|| run_scenario(seed, t, async_t, n_ops, usize::MAX))) {
 			Ok(x) => x,
 			Err(p) => { rec.oracle_fail(format!("scenario {} (seed {}) panicked in honest operation: {}", sc, seed, p.chars().take(200).collect::<String>())); continue; },
 		};
@@ -243,7 +244,7 @@ fn main() {
 		// not stale manager, stale manager, inadmissible — and keep at most two worlds per abstract world
 		let mut wrng = Rng::new(seed ^ 0xC10);
 		for i in (1..worlds.len()).rev() { let j = wrng.below(i as u64 + 1) as usize; worlds.swap(i, j); }
-		if worlds_per_scen != usize::MAX && std::env::var("VERIF_C10_WORLD").is_err() {
+		if std::env::var("VERIF_C10_WORLD").is_err() {
 			let key = |w: &World| -> String { let mut k = String::new(); for c in 0..my.len() { let v = &pts[w.q].views[c]; let m = &pts[w.mon_pts[c]].views[c]; k.push_str(&format!("{:?}/{:?}/{}|", v.chan, v.inflight, m.mon_id)); } k };
 			let bucket = |w: &World| -> usize { if !w.admissible { 3 } else if (0..my.len()).any(|c| pts[w.q].views[c].chan.unwrap()[0] < pts[w.mon_pts[c]].views[c].mon_id) { 2 } else if w.q == w.p { 0 } else { 1 } };
 			let quota = [worlds_per_scen * 3 / 10, worlds_per_scen * 3 / 10, worlds_per_scen * 2 / 10, worlds_per_scen * 2 / 10];
@@ -264,7 +265,7 @@ fn main() {
 			n_worlds += 1;
 			let tag = format!("scenario {} seed {} t={} async={} world(p={} [{}], manager of q={}, monitors of {:?}{})", sc, seed, t, async_t, w.p, pts[w.p].op, w.q, w.mon_pts, if w.admissible { "" } else { ", INADMISSIBLE: a monitor older than an update reported complete" });
 			let r = guarded(AssertUnwindSafe(|| run_scenario(seed, t, async_t, n_ops, w.p)));
-			let (mut net, wpts, _) = match r { Ok(x) => x, Err(e) => { rec.oracle_fail(format!("{}: re-run panicked: {}", tag, e.chars().take(160).collect::<String>())); continue; } };
+			let (mut net, wpts, _, decided) = match r { Ok(x) => x, Err(e) => { rec.oracle_fail(format!("{}: re-run panicked: {}", tag, e.chars().take(160).collect::<String>())); continue; } };
 			// the re-run must have reached the same durable points (hash-map iteration order may differ between runs)
 			if wpts.len() != w.p + 1 || (0..=w.p).any(|k| wpts[k].views != pts[k].views) { nondet += 1; rec.discarded += 1; std::mem::forget(net); continue; }
 			let mgr = &wpts[w.q].mgr;
@@ -292,6 +293,11 @@ fn main() {
 				Seen::Ok(v) => v.clone(),
 			};
 			if has_replay { n_replay += 1; }
+			// KF-C10-3 pattern: the manager copy holds blocked updates, the monitor copy is at (or past) the manager's latest id, the
+			// channel is resumed (every blocked update dropped as completed) — yet the monitor's numbers are above the channel's:
+			// the update the monitor has under that id is not the one the manager blocked (ids were renumbered by a jumping preimage update)
+			let kf3 = (0..my.len()).any(|k| { let c = qv[k].chan.unwrap(); c[5] > 0 && !chans[k].0 && mv[k].mon_id >= c[0] && (mv[k].mon[0] > c[2] || mv[k].mon[1] > c[3] || mv[k].mon[2] > c[4]) });
+			let kf3_text = "KF-C10-3 blocked monitor update dropped although the monitor never received it: a preimage update took the blocked update's id after the manager was written (ids of blocked updates are renumbered), so manager and monitor agree on the id but not on the content; on_startup_drop_completed_blocked_mon_updates_through discards the held revoke_and_ack update and the monitor permanently misses that revocation secret / counterparty commitment";
 			let mut any_closed = false;
 			for k in 0..my.len() {
 				let older = qv[k].chan.unwrap()[0] < mv[k].mon_id;
@@ -322,15 +328,25 @@ fn main() {
 			// continue to settlement
 			let fin = guarded(AssertUnwindSafe(|| {
 				for (_, peer, _) in chans_of(&net, t) { net.reconnect(t, peer); }
-				for _ in 0..12 {
+				for round in 0..12 {
 					net.settle(8);
 					let mut did = false;
+					// the application retries the decisions it took before the crash until it sees them take effect
+					if round < 3 { for (p, claim) in &decided { if net.pays[*p].to == t {
+						let h = net.pays[*p].hash;
+						let seen = net.events[t].iter().any(|e| matches!(e, Event::PaymentClaimed { payment_hash, .. } if *payment_hash == h));
+						if *claim && !seen { net.claim(*p); did = true; } else if !*claim && round == 0 { net.fail_back(*p); did = true; }
+					} } }
 					for p in 0..net.pays.len() { let to = net.pays[p].to; let h = net.pays[p].hash; if net.claimable[to].iter().any(|c| c.0 == h) { net.claimable[to].retain(|c| c.0 != h); net.claim(p); did = true; } }
 					if !did && net.any_queued().is_none() { break; }
 				}
 				net.settle(8);
 			}));
-			if let Err(e) = fin { rec.oracle_fail(format!("{}: panic while settling after the restart: {}", tag, e.chars().take(200).collect::<String>())); std::mem::forget(net); continue; }
+			if let Err(e) = fin {
+				if kf3 { rec.oracle_fail(format!("{} :: {} [{}] :: panic while settling after the restart: {}", kf3_text, tag, op, e.chars().take(120).collect::<String>())); }
+				else { rec.oracle_fail(format!("{}: panic while settling after the restart: {}", tag, e.chars().take(200).collect::<String>())); }
+				std::mem::forget(net); continue;
+			}
 			n_settled += 1;
 			if std::env::var("VERIF_C10_PROBE").is_ok() {
 				let stuck = (0..3).any(|i| net.nodes[i].node.list_channels().iter().any(|c| !c.pending_inbound_htlcs.is_empty() || !c.pending_outbound_htlcs.is_empty()));
@@ -379,6 +395,23 @@ fn main() {
 					if b1 + paid < b0 + got { fails.push(format!("{}: forwarding node lost money: Σ value_to_self {} → {} (paid {} itself, was paid {})", tag, b0, b1, paid, got)); }
 				}
 			}
+			// once settled, a channel with nothing blocked and nothing in flight is in sync with its monitor
+			let mut out_of_sync = vec![];
+			for (ci, peer, cid) in chans_of(&net, t) {
+				if let (Some(c), Ok(m)) = (vh::channel_restart_numbers(net.nodes[t].node, &net.ids[peer], &cid), net.nodes[t].chain_monitor.chain_monitor.get_monitor(cid)) {
+					let infl = vh::manager_in_flight_update_ids(net.nodes[t].node, &net.ids[peer], &cid);
+					let mn = vh::monitor_restart_numbers(&m);
+					if c[5] == 0 && infl.is_empty() && (c[0] != m.get_latest_update_id() || [c[2], c[3], c[4]] != mn) {
+						out_of_sync.push(format!("{}: settled channel {} (id {}, numbers {:?}) and its monitor (id {}, numbers {:?}) disagree with nothing blocked or in flight", tag, ci, c[0], &c[2..5], m.get_latest_update_id(), mn));
+					}
+				}
+			}
+			if kf3 && (!out_of_sync.is_empty() || !fails.is_empty()) {
+				let first = out_of_sync.first().or(fails.first()).unwrap().clone();
+				rec.oracle_fail(format!("{} :: {} [{}] :: {} symptoms, first: {}", kf3_text, tag, op, out_of_sync.len() + fails.len(), first));
+				fails.clear(); out_of_sync.clear();
+			}
+			fails.extend(out_of_sync);
 			if kf1 && fails.iter().any(|f| f.contains("HTLCs pending")) {
 				rec.oracle_fail(format!("KF-C10-1 channel stays paused after a restart that drops completed blocked monitor updates: the manager was written with blocked updates and nothing in flight, the monitor on disk contains them all, no MonitorUpdatesComplete is queued, revoke_and_ack is never sent :: {} [{}] :: {} symptoms, first: {}", tag, op, fails.len(), fails[0]));
 			} else { for f in fails { rec.oracle_fail(f); } }
@@ -392,44 +425,55 @@ fn main() {
 }
 
 /// Reference run → ops for the run model (Restart.step), checked against the live node at every point.
+/// Fresh updates and releases carry their step kinds (Update observations); an update handed to chain::Watch
+/// with an id the channel had already generated and without any commitment step is a preimage update that
+/// jumped ahead of the blocked ones (`jump`); the content of a blocked update is inferred from the change of
+/// the channel's numbers at the point where it was generated (tracking stops if that is ambiguous).
 fn track_run(rec: &mut Rec, sc: usize, t: usize, net: &Net, pts: &[Point], my: &[(usize, usize, ChannelId)]) {
+	let dec = |ks: &Vec<&'static str>| -> [u64; 3] { let mut d = [0u64; 3]; for s in ks { if s.starts_with("HolderCommitment") { d[0] += 1; } else if s.starts_with("CounterpartyCommitment") { d[1] += 1; } else if *s == "CommitmentSecret" { d[2] += 1; } } d };
 	for (k, (ci, _, _)) in my.iter().enumerate() {
 		let key = format!("s{}c{}", sc, ci);
 		let v0 = &pts[0].views[k];
 		let c0 = match v0.chan { Some(c) => c, None => continue };
 		rec.directive(&format!("init {} {} {} {} {}", key, v0.mon_id, c0[2], c0[3], c0[4]));
-		// kinds of every update id (from the Update observations, wherever they occur)
-		let mut kinds: BTreeMap<u64, [u64; 3]> = BTreeMap::new();
-		for o in &net.trace { if let Obs::Update { node, chan, id, kinds: ks, .. } = o { if *node == t && chan == ci {
-			let mut d = [0u64; 3];
-			for s in ks { if s.starts_with("HolderCommitment") { d[0] += 1; } else if s.starts_with("CounterpartyCommitment") { d[1] += 1; } else if *s == "CommitmentSecret" { d[2] += 1; } }
-			kinds.insert(*id, d);
-		} } }
-		let mut generated = v0.mon_id; // ids the model has been told about
-		let mut watch = v0.mon_id;
-		let mut durable = v0.mon_id;
-		let mut ok = true;
-		for pi in 1..pts.len() {
-			let lo = pts[pi - 1].trace_len; let hi = pts[pi].trace_len;
-			for o in &net.trace[lo..hi] {
+		let mut generated = v0.mon_id; let mut watch = v0.mon_id; let mut durable = v0.mon_id;
+		let mut pending: BTreeSet<u64> = BTreeSet::new();
+		'points: for pi in 1..pts.len() {
+			let (cp, cn) = match (pts[pi - 1].views[k].chan, pts[pi].views[k].chan) { (Some(a), Some(b)) => (a, b), _ => break };
+			let obs: Vec<&Obs> = net.trace[pts[pi - 1].trace_len..pts[pi].trace_len].iter().filter(|o| match o { Obs::Generated { node, chan, .. } | Obs::Update { node, chan, .. } | Obs::Completed { node, chan, .. } => *node == t && chan == ci, _ => false }).collect();
+			// decrement left over for the (single) blocked update generated in this interval
+			let mut known = [0u64; 3]; let mut n_blocked_gen = 0;
+			{ let mut g = generated; for o in &obs { match o {
+				Obs::Update { id, kinds, .. } => { if *id > g { let d = dec(kinds); for x in 0..3 { known[x] += d[x]; } g = *id; } else if dec(kinds) == [0, 0, 0] { g += 1; } },
+				Obs::Generated { id, .. } => { while g < *id { g += 1; n_blocked_gen += 1; } },
+				_ => {},
+			} } }
+			let total = [cp[2] - cn[2], cp[3] - cn[3], cp[4] - cn[4]];
+			if n_blocked_gen > 1 || (0..3).any(|x| total[x] < known[x]) { rec.discarded += 1; break 'points; }
+			let blocked_d = [total[0] - known[0], total[1] - known[1], total[2] - known[2]];
+			for o in &obs {
 				match o {
-					Obs::Generated { node, chan, id } if *node == t && chan == ci => {
-						while generated < *id { generated += 1; match kinds.get(&generated) { Some(d) => rec.directive(&format!("upd {} {} {} {} 1", key, d[0], d[1], d[2])), None => { ok = false; } } }
+					Obs::Generated { id, .. } => { while generated < *id { generated += 1; rec.directive(&format!("upd {} {} {} {} 1", key, blocked_d[0], blocked_d[1], blocked_d[2])); } },
+					Obs::Update { id, kinds, in_progress, .. } => {
+						let d = dec(kinds);
+						if *id > generated { generated = *id; watch = *id; rec.directive(&format!("upd {} {} {} {} 0", key, d[0], d[1], d[2])); }
+						else if d == [0, 0, 0] { generated += 1; watch = *id; rec.directive(&format!("jump {} 0 0 0", key)); }
+						else { watch = *id; rec.directive(&format!("release {}", key)); }
+						if *in_progress { pending.insert(*id); }
+						else if pending.is_empty() { durable = watch; rec.directive(&format!("complete {} {}", key, durable)); rec.directive(&format!("notify {}", key)); }
 					},
-					Obs::Update { node, chan, id, .. } if *node == t && chan == ci => {
-						if *id <= generated { while watch < *id { watch += 1; rec.directive(&format!("release {}", key)); } }
-						else { while generated < *id { generated += 1; let d = kinds[&generated]; rec.directive(&format!("upd {} {} {} {} 0", key, d[0], d[1], d[2])); } watch = *id; }
+					Obs::Completed { id, .. } => {
+						pending.remove(id);
+						let dn = pending.iter().next().map(|m| m - 1).unwrap_or(watch);
+						if dn > durable { durable = dn; rec.directive(&format!("complete {} {}", key, durable)); }
+						if pending.is_empty() { rec.directive(&format!("notify {}", key)); }
 					},
 					_ => {},
 				}
 			}
-			if !ok { rec.discarded += 1; break; } // a blocked update that was never released: its step kinds are unknown
 			let v = &pts[pi].views[k];
-			let c = match v.chan { Some(c) => c, None => break };
-			let dnow = v.durable();
-			if dnow > durable { durable = dnow; rec.directive(&format!("complete {} {}", key, durable)); if durable == watch { rec.directive(&format!("notify {}", key)); } }
-			rec.case(&format!("state {}", key), &format!("{} {} {} {} {} {} {} {} {}", c[0], c[1], csv(&v.inflight), c[2], c[3], c[4], v.mon[0], v.mon[1], v.mon[2]),
-				&format!("track:{}", if c[5] > 0 { "blocked" } else if !v.inflight.is_empty() { "in-flight" } else { "quiet" }), pi == pts.len() - 1 || pts[pi].views[k] != pts[pi - 1].views[k]);
+			rec.case(&format!("state {}", key), &format!("{} {} {} {} {} {} {} {} {}", cn[0], cn[1], csv(&v.inflight), cn[2], cn[3], cn[4], v.mon[0], v.mon[1], v.mon[2]),
+				&format!("track:{}", if cn[5] > 0 { "blocked" } else if !v.inflight.is_empty() { "in-flight" } else { "quiet" }), pi == pts.len() - 1 || pts[pi].views[k] != pts[pi - 1].views[k]);
 		}
 	}
 }
